@@ -972,6 +972,9 @@ class World:
                 if isinstance(self.classes[k].__dict__.get(m), staticmethod) or ms.get("static"):
                     # a static method re-exported by attribute access is the bare function; keep it static
                     return staticmethod(v)
+                if ms.get("wrapped"):
+                    # ``name = some_decorator(Base.member)``: the member of another class behind a functools.wraps decorator
+                    return _foreign_wraps(v)
                 return v
             return self.classes[k].__dict__[m]
         if kind == "shared":
@@ -986,6 +989,9 @@ class World:
                 raw.__name__ = "impl%s" % ms["impl"]
                 raw.__qualname__ = "impl%s" % ms["impl"]
                 run.idmap[id(raw)] = "impl%s" % ms["impl"]
+                if ms.get("contracted"):
+                    # ... which carries contracts of its own (decorated once, at module level)
+                    raw = self._decorate(raw, "impl%s" % ms["impl"], {"pre": [{}], "post": [{}]}, params=("self", "t"))
                 pool[ms["impl"]] = raw
             return raw
         if kind == "prop_ext":
